@@ -25,7 +25,8 @@ CONSTANTS Cfg,            \* static configuration, as Reducer.tla expects
           WallEpoch,      \* wall clock = now + WallEpoch (time.time vs time.monotonic)
           Dev_MatchDoneWaiters, Dev_WaitIndexOneBased, Dev_NoHandlersUnvalidated,
           TrackLog,       \* keep the tick log (needed for C11 only; it makes every path a distinct state)
-          Dev_ClockMix    \* BasicRuntime: first_attempt_at from the monotonic clock, failed_at from the wall clock
+          Dev_ClockMix,   \* BasicRuntime: first_attempt_at from the monotonic clock, failed_at from the wall clock
+          MaxResume       \* how often the environment may serialise the context and resume it (PauseResume)
 
 R == INSTANCE Reducer
 
@@ -50,7 +51,8 @@ vars == <<bs, buf, wake, wseq, idlePending, pend, tasks, pull, mailbox, now, out
 (*          lastend   : <<step, uid>> -> [att, at] of the latest finished execution                    *)
 (*          early     : a retry started earlier than the documented delay after its failure            *)
 (*          baddeliv  : a fresh event was not handed exactly once to exactly its accepting steps,      *)
-(*                      or an orphan event was not reported exactly once as unhandled ]                *)
+(*                      or an orphan event was not reported exactly once as unhandled                  *)
+(*          nres      : number of PauseResume steps so far ]                                           *)
 
 Live == outcome = "none"
 Wall == now + (IF Dev_ClockMix THEN WallEpoch ELSE 0)
@@ -139,7 +141,7 @@ SendTicks(ops, i, c) ==
 -----------------------------------------------------------------------------
 Mon0 == [nterm |-> 0, lastkind |-> "none", after |-> FALSE, slots |-> {}, bad35 |-> FALSE, asks |-> {}, askdup |-> FALSE,
          used |-> {}, duplist |-> FALSE, waits |-> {}, dupwait |-> FALSE, tos |-> {}, dupto |-> FALSE,
-         lastend |-> <<>>, early |-> FALSE, baddeliv |-> FALSE]
+         lastend |-> <<>>, early |-> FALSE, baddeliv |-> FALSE, nres |-> 0]
 (* the run starts at clock value n0 (0 in the model-checking runs; the recorded clock in TraceEngine.tla) *)
 InitAt(n0) ==
   /\ bs = R!EmptyState
@@ -353,14 +355,33 @@ AdvanceTo(t) ==
   /\ UNCHANGED <<bs, buf, wake, wseq, idlePending, pend, tasks, pull, mailbox, outcome, phase, next, ncancel, tickLog, pubs, mon>>
 Advance == wake # {} /\ AdvanceTo(NextTimerAt)
 
-Env == (\E t \in tasks : WorkerFinish(t)) \/ (\E m \in ExtMenu : ExtSend(m)) \/ ExtCancel \/ Advance
+(* the context is serialised at a quiescence point (ctx.to_dict, through JSON) and the run goes on from                *)
+(* Context.from_dict + workflow.run(ctx=...) -- in a new process, or after the handler of this one was dropped.  What  *)
+(* the serialised form keeps is the reducer state as RoundTrip leaves it; the runner's timer heap, the adapter's        *)
+(* mailbox and the running step bodies are not part of it: the new runner arms the workflow timeout afresh, re-pings    *)
+(* waiters that lost their requirements (Rehydrate), moves in-progress work back to the queues and starts workers up    *)
+(* to each step's limit (Rewind).  The stream of the resumed run is a new stream (telemetry slots start empty).         *)
+PauseResume ==
+  /\ Live /\ Quiescent /\ bs.running /\ mon.nres < MaxResume
+  /\ LET st0 == R!RoundTrip(bs)
+         rw == R!Rewind(st0, now)
+         x0 == [buf |-> R!Rehydrate(st0), wseq |-> 1, pend |-> <<>>, pubs |-> <<>>,
+                mon |-> [mon EXCEPT !.nres = @ + 1, !.slots = {}], idlePending |-> FALSE, outcome |-> "none",
+                wake |-> IF TimeoutMs = -1 THEN {} ELSE {[at |-> now + TimeoutMs, seq |-> 0, tick |-> [k |-> "timeout"]]}]
+         x == Exec(rw.cmds, 1, x0)
+     IN /\ bs' = rw.st /\ buf' = x.buf /\ wake' = x.wake /\ wseq' = x.wseq /\ pend' = x.pend /\ pubs' = x.pubs /\ mon' = x.mon
+        /\ idlePending' = x.idlePending /\ outcome' = x.outcome
+  /\ tasks' = {} /\ pull' = [st |-> "none"] /\ mailbox' = <<>> /\ phase' = "drain" /\ tickLog' = <<>>
+  /\ UNCHANGED <<now, next, ncancel>>
+
+Env == (\E t \in tasks : WorkerFinish(t)) \/ (\E m \in ExtMenu : ExtSend(m)) \/ ExtCancel \/ Advance \/ PauseResume
 
 (* the same actions addressed by the constant (step, worker slot) so that TLC can label them *)
 WakeWorkerAt(s, w) == \E t \in tasks : t.step = s /\ t.wid = w /\ WakeWorker(t)
 WorkerFinishAt(s, w) == \E t \in tasks : t.step = s /\ t.wid = w /\ WorkerFinish(t)
 
 (* = Internal \/ Env, spelled out so that TLC labels every transition with its action and arguments *)
-Next == \/ Drain \/ EnterWait \/ WakePull \/ WakeTimeout \/ PullTake \/ ExtCancel \/ Advance
+Next == \/ Drain \/ EnterWait \/ WakePull \/ WakeTimeout \/ PullTake \/ ExtCancel \/ Advance \/ PauseResume
         \/ \E s \in R!StepSet, w \in 0..3 : WakeWorkerAt(s, w)
         \/ \E s \in R!StepSet, w \in 0..3 : WorkerFinishAt(s, w)
         \/ \E m \in ExtMenu : ExtSend(m)
